@@ -542,4 +542,70 @@ example : (run stdR (init 65536 104857600)
     [[], [.settle 0 (.bytes [104, 101, 108, 108, 111])], [], [.settle 1 (.closedErr .reset)],
      [.settle 2 (.bytes [32, 119, 111, 114, 108, 100])]] := by decide
 
+/-! ### a close inside the read loop (added after the missed seeded change C13-2)
+
+`_read_to_buffer` on an exhausted transport that holds an error (ECONNRESET, any OSError) or EOF calls `close()` in the
+middle of `_read_to_buffer_loop`: the read is still registered, and the bytes pulled since the loop's last scan have not
+been looked at.  Whatever the cause, that read is completed with the data the buffered bytes prescribe. -/
+
+theorem reqIs_congr (s t : St) (q : Req) (h1 : t.ruc = s.ruc) (h2 : t.user = s.user) (h3 : t.rbytes = s.rbytes)
+    (h4 : t.rpartial = s.rpartial) (h5 : t.rdelim = s.rdelim) (h6 : t.rregex = s.rregex) (h7 : t.rmax = s.rmax)
+    (h8 : t.buf = s.buf) (hq : ReqIs s q) : ReqIs t q := by
+  cases q <;> simp only [ReqIs, h1, h2, h3, h4, h5, h6, h7, h8] at hq ⊢ <;> exact hq
+
+/-- **read_error_in_loop_gets_data**: the transport has nothing more to give and holds the error `k` (reset, EIO …) when
+    the read loop asks it again, a read `f` with request `q` is registered: the stream closes with `error = k`, and `f`
+    is completed with exactly `Spec.expected q buffer` if the buffered bytes satisfy the request — the error does not
+    take that data away — and fails with StreamClosedError(k) otherwise. -/
+theorem read_error_in_loop_gets_data (s : St) (k : ErrK) (f : Nat) (q : Req) (hc : s.closed = false)
+    (hi : s.inc = []) (he : s.rerr = some k) (hf : s.rfut = some f) (hq : ReqIs s q) :
+    (readToBuffer R s).1.closed = true ∧ (readToBuffer R s).1.error = k ∧
+    match Spec.expected R q s.buf with
+    | some o => Ev.settle f o ∈ (readToBuffer R s).1.out
+    | none => Ev.settle f (.closedErr k) ∈ (readToBuffer R s).1.out := by
+  have hq' : ReqIs { s with rerr := none } q := reqIs_congr s _ q rfl rfl rfl rfl rfl rfl rfl rfl hq
+  have key := pending_read_at_close R { s with rerr := none } (some k) f q hc hf hq'
+  have herr := close_error R { s with rerr := none } k hc
+  have hcl := close_closed R { s with rerr := none } (some k)
+  have hrb : (readToBuffer R s).1 = close R { s with rerr := none } (some k) := by
+    simp only [readToBuffer, hi, he]
+  rw [hrb]
+  refine ⟨hcl, herr, ?_⟩
+  rw [herr] at key
+  exact key
+
+/-- … and the same for an orderly EOF met inside the loop (`stream.error` stays what it was) -/
+theorem eof_in_loop_gets_data (s : St) (f : Nat) (q : Req) (hc : s.closed = false)
+    (hi : s.inc = []) (he : s.rerr = none) (heof : s.eof = true) (hf : s.rfut = some f) (hq : ReqIs s q) :
+    (readToBuffer R s).1.closed = true ∧
+    match Spec.expected R q s.buf with
+    | some o => Ev.settle f o ∈ (readToBuffer R s).1.out
+    | none => Ev.settle f (.closedErr (readToBuffer R s).1.error) ∈ (readToBuffer R s).1.out := by
+  have hrb : (readToBuffer R s).1 = close R s none := by
+    simp only [readToBuffer, hi, he, heof, if_true]
+  rw [hrb]
+  exact ⟨close_closed R s none, pending_read_at_close R s none f q hc hf hq⟩
+
+-- non-vacuity (the scenario of the seeded change C13-2): read_chunk_size 4, `read_until("\n")` pending, the peer's
+-- `abcde\n` and its RST are picked up by ONE pass of the loop (chunks `abcd` — scanned —, `e\n` — not rescanned —, then
+-- ECONNRESET): the read gets the line; the same when bytes and reset are there before the read is issued
+example : (runX stdR (init 4 100) [.op .setCb, .op (.readUntil [10] none), .arrive [97, 98, 99, 100, 101, 10],
+    .op (.rerr .reset)]).2.map (·.evs) = [[], [], [], [.settle 0 (.bytes [97, 98, 99, 100, 101, 10]), .cb]] := by decide
+example : (runX stdR (init 4 100) [.arrive [97, 98, 99, 100, 101, 10], .op (.rerr .oserr),
+    .op (.readUntil [10] none)]).2.map (fun o => (o.ret, o.evs)) =
+    [(.unit, []), (.unit, []), (.raised .oserr, [.settle 0 (.bytes [97, 98, 99, 100, 101, 10])])] := by decide
+
+/-- **all_settled_once_arrivals**: `all_settled_once` for runs in which bytes may reach the transport without the
+    handler running (`XOp.arrive`: data and error / EOF picked up by one pass of the read loop) -/
+theorem all_settled_once_arrivals :
+    ∀ (R : Nat → Bytes → Option Nat) (c m : Nat) (ops : List XOp),
+      (settledIds (allEvs (runX R (init c m) ops).2)).Nodup := by
+  intro R c m ops
+  rw [List.nodup_iff_count]
+  intro f
+  have h := (runX_count R ops (init c m) (goodP_init c m)).2.2 f
+  have h0 : (pending (init c m)).count f = 0 := by simp [pending, init]
+  rw [h0] at h
+  split at h <;> omega
+
 end TornadoModel.C13
